@@ -11,7 +11,8 @@ scope that does not exist."
 
 All theorems are about the executable model `PvModel.Vowner` (metadata WriteScope / DeleteScope /
 UpdateValueOwners / MigrateValueOwner over the bank ledger with the marker send restriction and
-authz grants, plus bank MsgSend / MsgMultiSend, marker MsgWithdraw / MsgTransfer), for EVERY state
+authz grants, plus bank MsgSend / MsgMultiSend, marker MsgWithdraw / MsgTransfer, exchange
+MsgCreateAsk / MsgFillAsks / MsgCancelOrder on a scope token with the hold module's hold), for EVERY state
 satisfying the invariant `Inv` — which speaks about SCOPE-TOKEN denoms only: accounts may hold any
 amounts of ordinary coins — in particular every state reachable from the empty chain or from any
 chain holding only ordinary coins by ANY sequence of operations, with any markers / permissions /
@@ -21,6 +22,7 @@ import PvProofs.Lemmas.VownerEffects
 import PvProofs.Lemmas.VownerGrants
 import PvProofs.Lemmas.VownerChecker
 import PvProofs.Lemmas.VownerFirst
+import PvProofs.Lemmas.VownerExchange
 
 namespace PvProofs.C09
 open PvModel PvModel.Ledger PvModel.Vowner PvProofs.VownerL
@@ -69,6 +71,7 @@ def opEffectiveSigners (s : State) : Op → List Addr
   | .mwithdraw _ admin _ _ => [admin]
   | .msend frm _ => [frm]
   | .mtransfer admin _ _ _ => [admin]
+  | .fill buyer _ _ => [buyer]
   | _ => []
 
 /-- marker MsgTransfer never succeeds on a scope token (`GetMarkerByDenom` finds no marker) -/
@@ -104,6 +107,13 @@ theorem exec_step {s s' : State} {op : Op} (hinv : Inv s) (h : exec s op = .ok s
   | mstatus m st =>
     obtain ⟨h1, h2⟩ := setStatus_eq h
     exact ⟨inv_of_ledger_scopes_eq hinv h1 h2, goodStep_of_ledger_eq _ _ h1⟩
+  | ask sl a p =>
+    obtain ⟨h1, h2, _⟩ := createAsk_spec h
+    exact ⟨inv_of_ledger_scopes_eq hinv h1 h2, goodStep_of_ledger_eq _ _ h1⟩
+  | fill b oid p => obtain ⟨h1, h2, _⟩ := fill_step hinv h; exact ⟨h1, h2⟩
+  | cancel sg oid =>
+    obtain ⟨h1, h2, _⟩ := cancelOrder_spec h
+    exact ⟨inv_of_ledger_scopes_eq hinv h1 h2, goodStep_of_ledger_eq _ _ h1⟩
 
 theorem opEffectiveSigners_sub (s : State) (op : Op) : ∀ x ∈ opEffectiveSigners s op, x ∈ opSigners op := by
   cases op <;> simp [opEffectiveSigners, opSigners, stepInfo] <;> exact effectiveSigners_sub s _
@@ -126,6 +136,9 @@ theorem exec_step_signers {s s' : State} {op : Op} (hinv : Inv s) (h : exec s op
   | revoke gr ge mt => exact hg.mono (opEffectiveSigners_sub s _) (by simp [opKind, stepInfo])
   | access m a ps => exact hg.mono (opEffectiveSigners_sub s _) (by simp [opKind, stepInfo])
   | mstatus m st => exact hg.mono (opEffectiveSigners_sub s _) (by simp [opKind, stepInfo])
+  | ask sl a p => exact hg.mono (opEffectiveSigners_sub s _) (by simp [opKind, stepInfo])
+  | fill b oid p => exact hg
+  | cancel sg oid => exact hg.mono (opEffectiveSigners_sub s _) (by simp [opKind, stepInfo])
 
 /-- A rejected message changes nothing (the model is transactional by construction; the harness
 checks the same of the implementation by comparing dumps). -/
@@ -245,6 +258,9 @@ theorem supply_changes_only_by_write_delete {s s' : State} (hinv : Inv s) (op : 
   | revoke gr ge mt => rw [(deleteGrant_eq h).1]
   | access m a ps => rw [(setAccess_eq h).1]
   | mstatus m st => rw [(setStatus_eq h).1]
+  | ask sl a p => rw [(createAsk_spec h).1]
+  | fill b oid p => exact (fill_step hinv h).2.2.1 d
+  | cancel sg oid => rw [(cancelOrder_spec h).1]
 
 /-- a WriteScope without a value-owner field never touches any token -/
 theorem write_without_value_owner_keeps_tokens {s s' : State} (hinv : Inv s) (id : ScopeId)
@@ -447,6 +463,9 @@ theorem env_ops_move_nothing {s s' : State} (op : Op) (hk : opKind op = .env) (h
   | mwithdraw mk ad to ids => simp [opKind, stepInfo] at hk
   | msend frm outs => simp [opKind, stepInfo] at hk
   | mtransfer ad frm to id => simp [opKind, stepInfo] at hk
+  | ask sl a p => exact heq ⟨(createAsk_spec h).1, (createAsk_spec h).2.1⟩
+  | fill b oid p => simp [opKind, stepInfo] at hk
+  | cancel sg oid => exact heq ⟨(cancelOrder_spec h).1, (cancelOrder_spec h).2.1⟩
 
 /-- **messages_never_create_grants**: no message of the model creates or widens an authz
 authorization — every grant in force afterwards goes back to a grant (same granter, grantee,
@@ -528,6 +547,9 @@ theorem messages_never_create_grants {s s' : State} (hinv : Inv s) (op : Op) (hk
   | revoke gr ge mt => simp [opKind, stepInfo] at hk
   | access m a ps => simp [opKind, stepInfo] at hk
   | mstatus m st => simp [opKind, stepInfo] at hk
+  | ask sl a p => simp [opKind, stepInfo] at hk
+  | fill b oid p => exact grantsSub_of_eq (fill_step hinv h).2.2.2.1
+  | cancel sg oid => simp [opKind, stepInfo] at hk
 
 /-! ## Clause 2b — consent through an authz grant costs one of the grant's uses -/
 
@@ -600,6 +622,9 @@ theorem authz_consent_uses_grant {s s' : State} (hinv : Inv s) (op : Op) (mt : M
   | revoke gr ge mt => simp [opKind, stepInfo] at hk
   | access m a ps => simp [opKind, stepInfo] at hk
   | mstatus m st => simp [opKind, stepInfo] at hk
+  | ask sl a p => simp [opKind, stepInfo] at hk
+  | fill b oid p => simp [opKind, stepInfo] at hk
+  | cancel sg oid => simp [opKind, stepInfo] at hk
 
 /-- **one_use_grant_is_gone** — a grant for ONE use authorises one change: under the hypotheses
 above, when every grant `hd` has given to a signer for this message type is a count
@@ -675,7 +700,8 @@ def RouteConsent (s : State) (hd : Addr) : Op → Prop
   | .mwithdraw mk admin _ _ =>                      -- the holder is the marker, the administrator has withdraw on it
     hd = mk ∧ ∃ m, findMarker s mk = some m ∧ m.has admin .withdraw = true
   | .mtransfer .. => False                          -- marker MsgTransfer never carries a scope token
-  | .fund .. | .grant .. | .revoke .. | .access .. | .mstatus .. => False
+  | .fill _ oid _ => ∃ o ∈ s.orders, o.id = oid ∧ o.seller = hd   -- the holder made the ask order being filled
+  | .fund .. | .grant .. | .revoke .. | .access .. | .mstatus .. | .ask .. | .cancel .. => False
 
 /-- marker MsgTransfer cannot move a scope token: it is rejected in every state -/
 theorem marker_transfer_never_moves_scope_token (s : State) (ad frm to : Addr) (id : ScopeId) :
@@ -686,18 +712,26 @@ theorem marker_transfer_never_moves_scope_token (s : State) (ad frm to : Addr) (
   | ok s1 => exact absurd h (markerTransfer_ne_ok _ _ _ _ _ _)
 
 /-- **whichever_message_consent_partial** — for EVERY operation of the extended set (four metadata
-messages, MsgSend, MsgMultiSend, marker MsgWithdraw, marker MsgTransfer, environment operations),
+messages, MsgSend, MsgMultiSend, marker MsgWithdraw, marker MsgTransfer, exchange MsgCreateAsk /
+MsgFillAsks / MsgCancelOrder, environment operations),
 any arguments, any signers, from any invariant state: if `hd` held scope `d`'s token before and does
 not hold it after, the operation is one of the consent routes and `hd` consented through it.
 
-Full statement: "whichever message of the chain is used".  PARTIAL because two further routes by
+The exchange route IS an operation now: an ask order on a scope token (`.ask`, which only the
+holder can create: `ask_only_by_holder`), `MsgFillAsks` (`.fill`, signed by the buyer alone: the
+holder's consent is the order it made — `RouteConsent` says the holder is the seller of the order
+being filled; `fill_moves_only_sellers_asset`) and `MsgCancelOrder`.
+
+Full statement: "whichever message of the chain is used".  Still PARTIAL because further routes by
 which the bank can move a coin are not operations of this model:
-* exchange settlement (`x/exchange` `MarketSettle` / `FillBids` / `FillAsks` → `DoTransfers` →
-  bank `InputOutputCoins` with the market/admin as transfer agent): an ask order may name a scope
-  token as its asset; the holder's consent there is the signed `MsgCreateAsk` (which puts a hold on
-  the token), not a signature on the settling message;
-* quarantine release (`x/quarantine` `MsgAccept` → `SendCoins` from the quarantine funds holder):
-  only reachable when the receiver opted into quarantine, which the harness app never does.
+* quarantine: a send (by ANY of the routes above — the metadata keeper does not bypass quarantine)
+  to a receiver that opted in parks the token with the quarantine funds holder, and `MsgAccept`
+  (`x/quarantine`, `SendCoins` from the funds holder) releases it to that receiver; the redirect
+  sits inside the bank's `SendCoins`, so modelling it changes the destination of every send of the
+  model — not done;
+* the other settlement paths of `x/exchange`: `MarketSettle` (market admin as transfer agent),
+  `FillBids` / a BID order PAYING with a scope token, commitments (`MsgCommitFunds` +
+  `MarketCommitmentSettle` / `MarketTransferCommitment`).
 Both are listed in `checks/C09.json` as outside the model. -/
 theorem whichever_message_consent_partial {s s' : State} (hinv : Inv s) (op : Op) (h : exec s op = .ok s')
     (d : ScopeId) (hsd : isScopeDenom d = true) (hd : Addr) (hbefore : HolderIs s.ledger d (some hd))
@@ -737,7 +771,7 @@ theorem whichever_message_consent_partial {s s' : State} (hinv : Inv s) (op : Op
         | some m2 =>
           rw [hm2] at h; simp only at h
           (repeat' (split at h)) <;> simp at h
-          rename_i hf
+          rename_i hf _
           subst h
           have hf' : hasFunds s.ledger mk ids = true := by simpa using hf
           obtain ⟨hsrc, hfin⟩ := holderIs_move (b := to) hnd' hf' hbefore
@@ -752,6 +786,9 @@ theorem whichever_message_consent_partial {s s' : State} (hinv : Inv s) (op : Op
   | revoke gr ge mt => exact hc
   | access m a ps => exact hc
   | mstatus m st => exact hc
+  | ask sl a p => exact hc
+  | fill b oid p => exact hc
+  | cancel sg oid => exact hc
 
 /-- the hypotheses are satisfiable through MsgMultiSend: `C` multi-sends its two tokens to two
 receivers; a stranger's multi-send of `C`'s token is rejected -/
@@ -762,6 +799,86 @@ example : (applyOp (run {} [.write "s1" [req "A"] false "C" ["A"]]) (.msend "B" 
 example : (applyOp (run {} [.write "s1" [req "A"] false "C" ["A"], .write "s2" [req "A"] false "C" ["A"]])
     (.msend "C" [("D", ["s1"]), ("MR", ["s2"])])).2 = "err:deposit" := by decide
 example : (applyOp (run {} [.write "s1" [req "A"] false "C" ["A"]]) (.mtransfer "C" "C" "D" "s1")).2 = "err:notfound" := by decide
+
+/-! ## The exchange route: an ask order on a scope token, its hold, and the fill
+
+A scope token is a bank coin, so it can be the `assets` of an x/exchange ask order.  The seller
+signs `MsgCreateAsk`; the buyer alone signs the later `MsgFillAsks` that moves the token.  The
+holder's consent to that move is the order: -/
+
+/-- **ask_only_by_holder** — order creator = holder at creation.  A `MsgCreateAsk` naming scope
+token `asset` goes through only when its signer `seller` HOLDS the token and the token is not on
+hold already (so at most one open order per token); it moves nothing, records the order under the
+next id and puts the token on hold. -/
+theorem ask_only_by_holder {s s' : State} (hinv : Inv s) (seller : Addr) (asset : Denom) (price : Nat)
+    (h : exec s (.ask seller asset price) = .ok s') :
+    isScopeDenom asset = true ∧ HolderIs s.ledger asset (some seller) ∧ heldOf s seller asset = 0 ∧
+    s'.ledger = s.ledger ∧ s'.scopes = s.scopes ∧
+    s'.orders = s.orders ++ [⟨s.lastOrder + 1, seller, asset, price⟩] ∧ s'.holds = (seller, asset) :: s.holds := by
+  obtain ⟨h1, h2, _, hsd, _, hsp, ho, hh⟩ := createAsk_spec h
+  obtain ⟨o, hho, _, _⟩ := hinv asset hsd
+  have hb := hho.2 seller
+  simp only [spendable, List.all_cons, List.all_nil, Bool.and_true, decide_eq_true_eq] at hsp
+  by_cases hc : o = some seller
+  · subst hc
+    simp at hb
+    exact ⟨hsd, hho, by omega, h1, h2, ho, hh⟩
+  · simp [hc] at hb
+    omega
+
+/-- the hypotheses are satisfiable: `C` holds `s1` and offers it -/
+example : ∃ s', exec (run {} [.write "s1" [req "A"] false "C" ["A"]]) (.ask "C" "s1" 3) = .ok s' ∧
+    s'.orders = [⟨1, "C", "s1", 3⟩] ∧ s'.holds = [("C", "s1")] := ⟨_, rfl, by decide, by decide⟩
+
+/-- **fill_moves_only_sellers_asset** — a successful `MsgFillAsks` of order `oid` (signed by the
+buyer only): the order is in the store, its seller is not the buyer, the price offered is the
+price asked, the buyer is not a marker; the seller HELD the order's asset token; exactly that
+token changes hands, seller → buyer, every other scope token stays; the order and its hold are
+gone. -/
+theorem fill_moves_only_sellers_asset {s s' : State} (hinv : Inv s) (buyer : Addr) (oid price : Nat)
+    (h : exec s (.fill buyer oid price) = .ok s') :
+    ∃ o ∈ s.orders, o.id = oid ∧ o.seller ≠ buyer ∧ o.price = price ∧ findMarker s buyer = none ∧
+      (isScopeDenom o.asset = true → HolderIs s.ledger o.asset (some o.seller)) ∧
+      (∀ d, isScopeDenom d = true → ∀ o0, HolderIs s.ledger d o0 →
+        HolderIs s'.ledger d (if d = o.asset then some buyer else o0)) ∧
+      s'.orders = s.orders.filter (·.id ≠ oid) ∧ s'.holds = s.holds.erase (o.seller, o.asset) := by
+  obtain ⟨_, _, _, _, _, o, hfo, h1, h2, h3, h4, h5, h6, h7⟩ := fill_step hinv h
+  exact ⟨o, (findOrder_some hfo).1, (findOrder_some hfo).2, h1, h2, h3, h4, h5, h6, h7⟩
+
+/-- the hypotheses are satisfiable: `B` fills `C`'s order and pays the price -/
+example : ∃ s', exec (run {} [.write "s1" [req "A"] false "C" ["A"], .ask "C" "s1" 3, .fund "B" "$c" 5]) (.fill "B" 1 3) = .ok s' ∧
+    bal s'.ledger "B" "s1" = 1 ∧ bal s'.ledger "C" "$c" = 3 ∧ bal s'.ledger "B" "$c" = 2 ∧ s'.orders = [] ∧ s'.holds = [] :=
+  ⟨_, rfl, by decide, by decide, by decide, by decide, by decide⟩
+
+/-- **held_token_not_sendable_partial** — while a token is on hold for an order its holder's own
+bank send of it is refused (the bank's locked-coins check).
+Full statement: "a token on hold leaves its holder by NO route other than the fill of its order".
+PARTIAL: proved for bank MsgSend only; for the metadata messages, MsgMultiSend and marker
+MsgWithdraw the same `spendable` test is part of the model (`sendCoins`, `bankMultiSend`,
+`markerWithdraw`) and is exercised on the real code (`held-token-other-route` in the evidence), but
+the statement over all operations is not proved. -/
+theorem held_token_not_sendable_partial {s s' : State} (hinv : Inv s) (frm to : Addr) (ids : List ScopeId) (d : ScopeId)
+    (hsd : isScopeDenom d = true) (hd : d ∈ ids) (hheld : 1 ≤ heldOf s frm d) :
+    exec s (.send frm to ids) ≠ .ok s' := by
+  intro h
+  simp only [exec] at h
+  unfold bankSend at h
+  split at h
+  · simp at h
+  · split at h
+    · simp at h
+    · have hsp := sendCoins_spendable h
+      obtain ⟨o, hho, _, _⟩ := hinv d hsd
+      have hb := hho.2 frm
+      simp only [spendable, List.all_eq_true, decide_eq_true_eq] at hsp
+      have := hsp d hd
+      by_cases hc : o = some frm
+      · simp [hc] at hb; omega
+      · simp [hc] at hb; omega
+
+/-- the hypothesis is satisfiable, and the send is indeed refused -/
+example : 1 ≤ heldOf (run {} [.write "s1" [req "A"] false "C" ["A"], .ask "C" "s1" 3]) "C" "s1" := by decide
+example : (applyOp (run {} [.write "s1" [req "A"] false "C" ["A"], .ask "C" "s1" 3]) (.send "C" "D" ["s1"])).2 = "err:funds" := by decide
 
 /-! ## The first value owner (token minted: none → some)
 
@@ -827,6 +944,9 @@ theorem first_owner_set_only_by_write {s s' : State} (hinv : Inv s) (op : Op) (h
   | revoke gr ge mt => exact (hkeep (by intros; simp) (by intros; simp)).elim
   | access m a ps => exact (hkeep (by intros; simp) (by intros; simp)).elim
   | mstatus m st => exact (hkeep (by intros; simp) (by intros; simp)).elim
+  | ask sl a p => exact (hkeep (by intros; simp) (by intros; simp)).elim
+  | fill b oid p => exact (hkeep (by intros; simp) (by intros; simp)).elim
+  | cancel sg oid => exact (hkeep (by intros; simp) (by intros; simp)).elim
 
 /-- the hypotheses are satisfiable on an existing scope: `s1` (parties `A`, `B`) is written
 without a value owner; a later write signed by both parties names `C`; signed by `A` alone it is
@@ -1024,6 +1144,9 @@ theorem step_ok {s : State} (hinv : Inv s) (op : Op) (ids : List ScopeId)
       | revoke _ _ _ => simp [deleteOne, stepInfo]
       | access _ _ _ => simp [deleteOne, stepInfo]
       | mstatus _ _ => simp [deleteOne, stepInfo]
+      | ask _ _ _ => simp [deleteOne, stepInfo]
+      | fill _ _ _ => simp [deleteOne, stepInfo]
+      | cancel _ _ => simp [deleteOne, stepInfo]
     have hgu : (observe s1 ids).scopes.all (grantUseOne (observe s ids) (stepInfo op true) (observe s1 ids)) = true := by
       simp only [observe, List.all_eq_true, List.mem_map]
       rintro o ⟨id, hid, rfl⟩
@@ -1171,6 +1294,22 @@ example : (applyOp {} (.write "s1" [req "A", opt "B"] false "B" ["A"])).2 = "err
 /-- delete burns; a contract as first signer hides the other signers -/
 example : (run {} [.write "s1" [req "A"] false "C" ["A"], .delete "s1" ["A", "C"]]).ledger.supply "s1" = 0 := by decide
 example : holder (run {} [.write "s1" [req "A"] false "C" ["A"], .updvo ["s1"] "D" ["K", "C"]]) "s1" = some (some "C") := by decide
+/-! the exchange route: only the holder can offer the token; while it is on hold no other route
+moves it (not the holder's own send, not a metadata message signed by the holder, not a delete);
+a fill needs the order, the asked price and a buyer who can pay; a cancel by the seller frees it -/
+example : (applyOp (run {} [.write "s1" [req "A"] false "C" ["A"]]) (.ask "B" "s1" 3)).2 = "err:funds" := by decide
+example : (applyOp (run {} [.write "s1" [req "A"] false "C" ["A"], .ask "C" "s1" 3]) (.ask "C" "s1" 2)).2 = "err:funds" := by decide
+example : (applyOp (run {} [.write "s1" [req "A"] false "C" ["A"], .ask "C" "s1" 3]) (.updvo ["s1"] "D" ["C"])).2 = "err:funds" := by decide
+example : (applyOp (run {} [.write "s1" [req "A"] false "C" ["A"], .ask "C" "s1" 3]) (.delete "s1" ["A", "C"])).2 = "err:funds" := by decide
+example : (applyOp (run {} [.write "s1" [req "A"] false "C" ["A"], .ask "C" "s1" 3]) (.msend "C" [("D", ["s1"])])).2 = "err:funds" := by decide
+example : (applyOp (run {} [.write "s1" [req "A"] false "C" ["A"], .fund "B" "$c" 5]) (.fill "B" 1 3)).2 = "err:notfound" := by decide
+example : (applyOp (run {} [.write "s1" [req "A"] false "C" ["A"], .ask "C" "s1" 3, .fund "B" "$c" 5]) (.fill "B" 1 2)).2 = "err:invalid" := by decide
+example : (applyOp (run {} [.write "s1" [req "A"] false "C" ["A"], .ask "C" "s1" 3]) (.fill "B" 1 3)).2 = "err:funds" := by decide
+example : (applyOp (run {} [.write "s1" [req "A"] false "C" ["A"], .ask "C" "s1" 3]) (.cancel "B" 1)).2 = "err:perm" := by decide
+example : holder (run {} [.write "s1" [req "A"] false "C" ["A"], .ask "C" "s1" 3, .fund "B" "$c" 5, .fill "B" 1 3]) "s1"
+    = some (some "B") := by decide
+example : holder (run {} [.write "s1" [req "A"] false "C" ["A"], .ask "C" "s1" 3, .cancel "C" 1, .send "C" "D" ["s1"]]) "s1"
+    = some (some "D") := by decide
 /-- `Inv` is not vacuous: a state with a live token satisfies it -/
 example : Inv (run {} [.write "s1" [req "A"] false "C" ["A"]]) := run_inv inv_init _
 
